@@ -281,9 +281,10 @@ def split_sequences(ops):
     return seqs
 
 
-def eval_seq(ctx, vcorr, seq_lines, cmp_spec=True):
+def eval_seq(ctx, vcorr, seq_lines, cmp_spec=True, time_scale=None):
     """Run one sequence on impl and model. Returns (index of first divergence | None, impl, model, spec)."""
-    impl, r1 = run_lines([vcorr, "run"], seq_lines, env=GOENV)
+    env = GOENV if time_scale is None else dict(GOENV, VERIF_TIME_SCALE=str(time_scale))
+    impl, r1 = run_lines([vcorr, "run"], seq_lines, env=env)
     mod, r2 = run_lines(model_bin(), seq_lines)
     for i in range(len(seq_lines)):
         a = impl[i] if i < len(impl) else "<no-output>"
@@ -437,9 +438,25 @@ def correspondence(ctx, cfg_comp, label=None):
         for lines, div, orig in bad[:3]:
             small = shrink(ctx, vcorr, lines)
             d, im, mo, sp = eval_seq(ctx, vcorr, small)
-            if d is None:   # flaky: keep the original
+            if d is None:   # did not reproduce: keep the original sequence
                 small = lines
                 d, im, mo, sp = eval_seq(ctx, vcorr, small)
+            if d is None:
+                # A divergence seen once in the bulk run that the same sequence does not show again.  The
+                # harnesses drive real goroutines and timers; on a loaded machine a scenario can exceed the
+                # harness's own deadline.  The sequence is run three more times with stretched deadlines: if
+                # it never diverges again it is recorded as not reproducible (evidence) and not reported.
+                for _ in range(3):
+                    d, im, mo, sp = eval_seq(ctx, vcorr, small, time_scale=4)
+                    if d is not None:
+                        break
+                if d is None:
+                    ctx.cov.setdefault("not_reproducible", []).append(
+                        {"component": label, "op": orig.get("op", "")[:300], "impl_once": orig.get("impl", "")[:300],
+                         "model": orig.get("model", "")[:300], "reruns_agreeing": 5})
+                    log("  %s: one divergence did not reproduce in 5 re-runs of the same sequence (not reported): %s -> %s"
+                        % (label, orig.get("op", "")[:120], orig.get("impl", "")[:80]))
+                    continue
             payload = {"component": label, "generator": name, "ops": small,
                        "impl": im[:len(small)], "model": mo[:len(small)], "spec": sp[:len(small)],
                        "first_divergence": d, "original_divergence": orig}
